@@ -189,10 +189,17 @@ class Worker:
         self.jobs_run += 1
         t0 = time.time()
         cpu0 = _cpu_seconds(self.proc.pid) or 0.0
+        chunks = [self.buf]
+        self.buf = b""
+        total = len(chunks[0])
         while True:
-            nl = self.buf.find(b"\n")
+            nl = chunks[-1].find(b"\n")
             if nl >= 0:
-                rec, self.buf = self.buf[:nl], self.buf[nl + 1:]
+                last = chunks.pop()
+                rec = b"".join(chunks) + last[:nl]
+                self.buf = last[nl + 1:]
+                if total > MAX_RECORD_BYTES:
+                    return {"id": job.get("id"), "outcome": "oversized-record", "bytes": total}
                 try:
                     return json.loads(rec)
                 except Exception as e:
@@ -201,7 +208,12 @@ class Worker:
             if ready:
                 chunk = os.read(self.rfd, 1 << 20)
                 if chunk:
-                    self.buf += chunk
+                    if total > MAX_RECORD_BYTES:
+                        # keep draining without storing (a record this large is never judged)
+                        chunks = [chunk if b"\n" in chunk else b""]
+                    else:
+                        chunks.append(chunk)
+                    total += len(chunk)
                     continue
                 # EOF: worker died
                 self.proc.wait()
@@ -219,7 +231,8 @@ class Worker:
                 return {"id": job.get("id"), "outcome": "wall-timeout", "cpu_s": cpu}
 
 
-ABNORMAL = ("panic", "crash", "cpu-timeout", "wall-timeout", "harness_error")
+MAX_RECORD_BYTES = 64 << 20
+ABNORMAL = ("panic", "crash", "cpu-timeout", "wall-timeout", "harness_error", "oversized-record")
 
 
 def abnormal(rec):
@@ -533,8 +546,15 @@ def run_check(prop, tier, seed, replay=None):
     if nshards == 1:
         results = [_shard_main(args[0])]
     else:
+        grace = float(os.environ.get("VERIF_GRACE_S", "240"))
         with mp.Pool(nshards) as pool:
-            results = pool.map(_shard_main, args, chunksize=1)
+            try:
+                results = pool.map_async(_shard_main, args, chunksize=1).get(timeout=budget + grace)
+            except mp.TimeoutError:
+                pool.terminate()
+                subprocess.run(["pkill", "-P", str(os.getpid())], stdout=subprocess.DEVNULL, stderr=subprocess.DEVNULL)
+                print("INCONCLUSIVE property=%s overall watchdog fired after %.0fs (a shard did not return)" % (prop, budget + grace))
+                return 2
 
     return _conclude(mod, prop, tier, seed, results, time.time() - t0)
 
